@@ -6,6 +6,7 @@ LEVEL = ("bounded symbolic execution of the real code over exact reals; every ob
          "(in)equalities decided by z3 (QF_LRA monomial abstraction of QF_NRA with solver-checked lemma selection); "
          "counterexample candidates are replayed on the unpatched float code before VIOLATION is printed")
 CLAIMED = {
+ "C13": ("attribute codec (CrossHair over symbolic strings / bools / lists on the real functions) and rebuild-from-serialised-tree for every listed model class and codec (identity, netCDF attrs, JSON attrs, placeholders): equal parameters and term-identical components, scores, transform, inverse_transform, predict", "5 C13"),
  "C17": ("every enumerated single-fault mutation of a valid call raises on every explored path; range faults (n_modes, alpha) are symbolic so the solver covers all values; the valid variants named by the property are accepted", "5 C17"),
  "C15": ("threshold truncation keeps the smallest number of modes reaching a SYMBOLIC fraction f (or all, with warning); solver policy over symbolic n, p, n_modes; seeds and solver_kwargs reach the solver call; sign convention makes the largest-magnitude loading positive and is odd", "5 C15"),
  "C07": ("pairs of fits on re-laid-out copies of one symbolic data set (transpose, feature/sample permutation, split over variables/list items, other dimension names) give equal singular values, components at each label and scores; SVD inputs verified to be permutations of each other, real sign convention executed", "5 C07"),
@@ -31,6 +32,7 @@ m = {
  "setup_cmd": "./setup.sh",
  "hooks": {"guard": "XEOFS_VERIF", "enable": "no hook commits: all interception is done from the harness side (numpy __array_function__/__array_ufunc__ protocols and module-attribute patches applied inside the check process); the guard name is reserved", "baseline_off_cmd": "cd /repo && /venv/bin/python -m pytest -ra -q -p no:cacheprovider --timeout=900 --continue-on-collection-errors", "source_commits": [], "add_only": True},
  "engines": [
+  {"name": "crosshair", "path": "xh/", "serves_properties": ["C13"], "kind_free_text": "CrossHair 0.0.110 (symbolic execution of Python with z3) on PEP316 conditions that call the real attribute codec"},
   {"name": "symx", "path": "symx/", "serves_properties": sorted(CLAIMED), "kind_free_text": "symbolic execution of the real Python code over exact Laurent-polynomial scalars inside a numpy duck array; obligations decided by z3 (QF_LRA over monomials, lemmas selected by saturation/reduction); candidates replayed on the float code"},
  ],
  "checks": [],
